@@ -98,7 +98,14 @@ CLAIMS.update({
    tech="TLA+ models checked by TLC incl. deadlock and liveness; exhaustive graph-walk replay into the real pool through gates; counterexample and simulation replay on the real debouncer; recorded session observations validated by TLC", ref="DESIGN.md section 7 C17"),
 })
 
-NA = {}
+CLAIMS.update({
+ "C16": dict(cat="model_checking",
+   text="Cluster.tla holds the truth the control node reports, the property state computed from the history alone, a driver model and Viol(observed, property state), whose results are the violation classes (ring = reported valid unfiltered ids, lookups by id and by address agree, hostList a permutation, pool and policy membership equal the ring's, a node reported down not offered until connected again, no panic, bounded refreshes per event burst). TLC checks every history of <= 4 steps over 3 ids x 3 addresses and enumerates histories (all mixed histories of length 2, all refresh histories of length 3, sampled longer ones with invalid rows, duplicates, filters, refresh failures, control loss, event bursts); each is executed on a real Session over the scripted cluster (direct in-package refresh/event calls for breadth, real pushed EVENT frames through the 1 s debouncers for depth), the projected driver state is recorded at quiescence after every step and TLC evaluates Viol on every recorded state and compares transitions with the model (differences that contradict nothing are drift).",
+   note="Steps are atomic up to quiescence (interleavings inside one refresh are not enumerated, no gates); only the round-robin policy is observed; the control connection always returns to the dedicated control node.",
+   tech="TLA+ model checked by TLC; TLC-enumerated histories replayed into a real Session; recorded states judged by TLC", ref="DESIGN.md section 7 C16"),
+})
+
+NA = {"C05": "check under construction by this round (structure-aware malformation and protocol-position generators exist in part); not yet claimed"}
 DEFAULT_NA = "machinery under construction in this round; not yet claimed"
 
 
